@@ -124,3 +124,39 @@ Theorem python_chain_references_hypotheses_satisfiable :
   exists out, process chain_python w_tame = Ok out /\ resolves out = true /\ List.length (objects_of out) = 5.
 Proof. exact python_chain_references_nonvacuous. Qed.
 Print Assumptions python_chain_references_hypotheses_satisfiable.
+
+(* full `resolves` through the Python chain when the input carries no discriminator mapping yet
+   (DisjunctionInferMapping only builds mappings over branch names: dim_keeps_mappings) *)
+Theorem disjunction_infer_mapping_keeps_mappings : forall ss out,
+  mappings_ok ss -> disjunction_infer_mapping ss = Ok out -> mappings_ok out.
+Proof. exact dim_keeps_mappings. Qed.
+Print Assumptions disjunction_infer_mapping_keeps_mappings.
+Theorem python_chain_keeps_resolving_full : forall ss out,
+  wf_refs_input ss -> no_mappings ss = true -> resolves ss = true -> process chain_python ss = Ok out -> resolves out = true.
+Proof. exact python_chain_keeps_resolving. Qed.
+Print Assumptions python_chain_keeps_resolving_full.
+(* references and entry points through the Go chain (side conditions only for DisjunctionOfAnonymousStructsToExplicit)
+   and through the Java / PHP chains without their last pass, unconditionally *)
+Theorem go_chain_keeps_references_resolving : forall ss out,
+  wf_refs_input ss -> union_in_inter ss = false -> entry_simple ss = true ->
+  refs_ok ss -> entries_ok ss -> process chain_go ss = Ok out -> refs_ok out /\ entries_ok out.
+Proof. exact go_chain_keeps_references. Qed.
+Print Assumptions go_chain_keeps_references_resolving.
+Theorem java_core_chain_keeps_references_resolving : forall ss out,
+  wf_refs_input ss -> refs_ok ss -> entries_ok ss -> process (removelast chain_java) ss = Ok out ->
+  wf_refs_input out /\ refs_ok out /\ entries_ok out.
+Proof. exact java_core_chain_keeps_references. Qed.
+Print Assumptions java_core_chain_keeps_references_resolving.
+Theorem php_core_chain_keeps_references_resolving : forall ss out,
+  wf_refs_input ss -> refs_ok ss -> entries_ok ss -> process (removelast chain_php) ss = Ok out ->
+  wf_refs_input out /\ refs_ok out /\ entries_ok out.
+Proof. exact php_core_chain_keeps_references. Qed.
+Print Assumptions php_core_chain_keeps_references_resolving.
+(* the three passes left out do break resolution: witnesses = the open findings C05-java-remove-intersections,
+   C05-php-inline-objects, C05-flatten-case-colliding-branches *)
+Theorem chain_passes_breaking_resolution :
+  (resolves w_ri_dangling = true /\ exists out, remove_intersections w_ri_dangling = Ok out /\ dangling out = [("p", "S")]) /\
+  (resolves w_inline_dangling = true /\ exists out, inline_objects_with_types ["scalar"; "array"] w_inline_dangling = Ok out /\ dangling out = [("p", "Y")]) /\
+  (resolves w_flatten_orphan = true /\ exists out, flatten_disjunctions w_flatten_orphan = Ok out /\ dangling out = [("<mapping>", "Foo")]).
+Proof. exact chain_passes_that_break_resolution. Qed.
+Print Assumptions chain_passes_breaking_resolution.
